@@ -368,14 +368,14 @@ int main(int argc, char **argv)
         return wr_finish();
     }
     if (!only || !strcmp(only, "builtin")) leg_builtin();
-    /* deciding legs first (80% of the time budget), free-running configuration box last */
+    /* deciding legs first (70% of the time budget), free-running configuration box last */
     double full_deadline = wr_deadline;
-    if (full_deadline > 0 && !only) wr_deadline = full_deadline - 0.2 * (full_deadline - wr_now());
+    if (full_deadline > 0 && !only) wr_deadline = full_deadline - 0.3 * (full_deadline - wr_now());
     leg_arg_t a = { 'a', 1 }, m1 = { 'm', 1 }, m2 = { 'm', 2 }, m4 = { 'm', 4 }, r = { 'r', 1 };
     if (with_reduce && (!only || !strcmp(only, "reduce"))) wr_run_legs("reduce-orders", 3, leg_orders, &r, 600, aux);
     if (!only || !strcmp(only, "map")) { wr_run_legs("map-orders-1core", 1, leg_orders, &m1, 600, aux); wr_run_legs("map-orders-2cores", jobs > 4 ? 4 : jobs, leg_orders, &m2, 600, aux); wr_run_legs("map-orders-4cores", jobs > 6 ? 6 : jobs, leg_orders, &m4, 600, aux); }
     if (!only || !strcmp(only, "apply")) wr_run_legs("apply-orders", jobs, leg_orders, &a, 600, aux);
-    wr_deadline = full_deadline;
+    wr_deadline = full_deadline; if (full_deadline > 0 && full_deadline < wr_now() + 15) wr_deadline = wr_now() + 15;   /* the box always gets a minimum share */
     if (!only || !strcmp(only, "threads")) wr_run_legs("threads", 9, leg_threads, NULL, 240, aux);
     return wr_finish();
 }
